@@ -7,8 +7,9 @@
                   (the emitted loop `for j < nr_transitions: if source == i` against the engine's per-state list);
      cpl_plain    an initial attribute that names a direct child names nothing else (the emitted "deep completion"
                   runs only when no completion state is a direct child; refuted otherwise: CGenEquivWitness.v);
-     deep_alone   no deep history with another history below its parent (the emitted code then puts the nested
-                  history pseudo-states into the entry set, the engine restores the recorded states directly).
+     deep_alone   a deep history with another history below its parent records no state that has a history child
+                  (the emitted code then puts those nested history pseudo-states into the entry set, the engine
+                  restores the recorded states directly).
    The loop invariant is the one of LegalHistFast.v (HInv, preserved by Fast.fdescend_one); here only the step-wise
    equality of the two passes is added.  Proofs only. *)
 From V Require Import Base NameMatch Chart Exec Large Fast LargeLemmas Legal SetLemmas LegalAbstract LegalLarge
@@ -20,7 +21,8 @@ Local Open Scope nat_scope.
 Definition is_deepT (t : ftype) : bool := match t with FHistDeep => true | _ => false end.
 
 Definition deep_alone (c : fchart) : bool :=
-  forallb (fun i => negb (is_deepT (fs_type (st c i)) && has_history c i)) (seq 0 (nstates c)).
+  forallb (fun i => negb (is_deepT (fs_type (st c i)) && has_history c i) ||
+                    forallb (fun j => negb (has_history c j)) (fs_completion (st c i))) (seq 0 (nstates c)).
 
 Definition cpl_plain (c : fchart) : bool :=
   forallb (fun i => match fs_type (st c i) with
@@ -209,7 +211,11 @@ Proof.
       replace (intersects (ft_targets (tr c ti)) []) with false; [reflexivity|].
       symmetry. apply intersects_false. intros x _ [].
     + pose proof (forallb_seq0 _ _ Hdeep j Hj) as P. cbv beta in P. rewrite Hk in P. cbn [is_deepT andb] in P.
-      apply negb_true_iff in P. now rewrite P.
+      destruct (has_history c j) eqn:Hh; [|reflexivity]. cbn [negb orb] in P. rewrite forallb_forall in P.
+      f_equal. generalize (set_union es (set_inter (fs_completion (st c j)) hist)). generalize (seq (S j) (cn c - S j)).
+      induction l as [|x r IH]; intros e; cbn [fold_left]; [reflexivity|].
+      destruct (mem x (fs_completion (st c j))) eqn:Mx; cbn [andb]; [|apply IH].
+      apply mem_true_In in Mx. specialize (P x Mx). apply negb_true_iff in P. rewrite P, andb_false_r. apply IH.
   - (* initial *)
     rewrite (trans_list_of j Hj).
     rewrite <- (fold_if_filter (fun ti => ft_source (tr c ti) =? j)
